@@ -17,6 +17,7 @@ Proofs/NoUbGuardsV1.lean (siteG = ok, stepG = step) no longer go through.
 -/
 import EngineModel.Api.C15TracksV1
 import EngineModel.Gen.C15Guards
+import EngineModel.Api.GuardedUtils
 
 namespace EngineModel.Api.GuardedTracksV1
 open EngineModel EngineModel.TracksV1 EngineModel.Api.C15TracksV1 EngineModel.Gen
@@ -47,6 +48,8 @@ structure Guards where
   overviewNonEmpty : Bool → Bool                 -- :246
   overviewLoop : Nat → Nat → Bool                -- :250
   hiresAbsent : Bool → Bool → Bool → Bool → Bool -- :269
+  utilOvwZero : Nat → Int → F64.Bits → Bool      -- track_utils.hpp:60
+  utilHiresZero : Nat → Int → F64.Bits → Bool    -- track_utils.hpp:42
 
 def Guards.source : Guards where
   hotCueAt := C15Guards.v1_track_hot_cue_at_range
@@ -61,6 +64,8 @@ def Guards.source : Guards where
   overviewNonEmpty := C15Guards.v1_overview_nonempty
   overviewLoop := C15Guards.v1_overview_loop
   hiresAbsent := C15Guards.v1_hires_absent
+  utilOvwZero := C15Guards.util_ovw_zero
+  utilHiresZero := C15Guards.util_hires_zero
 
 /-- the rows a per-slot accessor works on: those of the track, or the defaults on the handle of a removed track -/
 def slotRows (d : Db) (id : Int) : TrackRows := (d.rows id).getD blankRows
@@ -121,6 +126,7 @@ def overviewLoopG (g : Guards) (w : List Impl.V1.Entry) (size : Nat) : Nat → N
 def overviewSiteG (g : Guards) (o : FOps) (count : Option UInt64) (rate : Option Bits) (w : List Impl.V1.Entry) : Res Unit :=
   if g.overviewAbsent count.isSome rate.isSome then .ok ()                              -- :237
   else (deref count).bind fun n => (deref rate).bind fun r =>                           -- :244
+    (GuardedUtils.extentsSiteG g.utilOvwZero Fl.toI64 n.toNat (extentsRateG g r)).bind fun _ =>   -- track_utils.hpp:52-69
     match Gen.TrackUtils.calculate_overview_waveform_extents o.cxx n.toNat (extentsRateG g r) with
     | none => .ub .div_zero
     | some (size, _) =>
@@ -133,6 +139,7 @@ def hiresSiteG (g : Guards) (o : FOps) (count : Option UInt64) (rate : Option Bi
   let rz := match rate with | some r => F64.isZero r | none => false
   if g.hiresAbsent count.isSome cz rate.isSome rz then .ok ()                           -- :269 returns or throws
   else (deref count).bind fun n => (deref rate).bind fun r =>                           -- :286
+    (GuardedUtils.extentsSiteG g.utilHiresZero Fl.toI64 n.toNat (extentsRateG g r)).bind fun _ =>   -- track_utils.hpp:35-49
     match Gen.TrackUtils.calculate_high_resolution_waveform_extents o.cxx n.toNat (extentsRateG g r) with
     | none => .ub .div_zero
     | some _ => .ok ()
